@@ -3,7 +3,7 @@
 cd /verif
 for p in $(python3 -c "import json; print(' '.join(c['property_id'] for c in json.load(open('MANIFEST.json'))['checks']))"); do
   cp evidence/$p.json .work/evidence-$p.keep 2>/dev/null
-  out=$(timeout 7000 ./check $p --tier thorough 2>&1 | grep -E "tier=thorough|VIOLATION" | cut -c1-160 | tr '\n' ' ')
+  out=$(timeout 7000 ./check $p --tier thorough 2>&1 | grep -aE "tier=thorough|VIOLATION" | cut -c1-160 | tr '\n' ' ')
   cp evidence/$p.json .work/evidence-$p.thorough.json 2>/dev/null
   cp .work/evidence-$p.keep evidence/$p.json 2>/dev/null
   echo "$out"
